@@ -134,18 +134,19 @@ example :
     instantiated pair, `pair_ledger_init`), by ANY history of provide / swap / withdraw / collect /
     fee changes / plain transfers / malformed swaps, for BOTH assets and ANY pair type:
     pending = charged − transferred to the collector; all-time collected = Σ protocol-fee charges;
-    all-time burned = Σ burn charges; the collector holds exactly what collections sent it;
+    all-time burned = Σ burn charges; the two collector accounts (the one named at instantiation and the
+    one `UpdateConfig{fee_collector_addr}` can switch to) together hold exactly what collections sent;
     circulating amount + burned = constant (burned amounts really leave circulation); and every
     circulating unit is on the pair, with the collector or with a user (nothing else moves) -/
 theorem pair_ledger_eq {cv : Pair.Curve} {K0 C0 K1 C1 : Nat} (s : Pair.St) (hL : Pair.LInv K0 C0 K1 C1 s)
     (ops : List Pair.Op) :
     let s' := Pair.reach cv s ops
     (s'.x0.pend = s'.x0.chg - s'.x0.sent ∧ s'.x0.sent ≤ s'.x0.chg ∧ s'.x0.allTime = s'.x0.chg ∧
-      s'.x0.burned = s'.x0.brn ∧ s'.x0.col = C0 + s'.x0.sent ∧ s'.x0.tot + s'.x0.brn = K0 ∧
-      s'.x0.tot = s'.x0.bal + s'.x0.col + Pair.sumF (·.a) s'.users) ∧
+      s'.x0.burned = s'.x0.brn ∧ s'.x0.col + s'.x0.colB = C0 + s'.x0.sent ∧ s'.x0.tot + s'.x0.brn = K0 ∧
+      s'.x0.tot = s'.x0.bal + s'.x0.col + s'.x0.colB + Pair.sumF (·.a) s'.users) ∧
     (s'.x1.pend = s'.x1.chg - s'.x1.sent ∧ s'.x1.sent ≤ s'.x1.chg ∧ s'.x1.allTime = s'.x1.chg ∧
-      s'.x1.burned = s'.x1.brn ∧ s'.x1.col = C1 + s'.x1.sent ∧ s'.x1.tot + s'.x1.brn = K1 ∧
-      s'.x1.tot = s'.x1.bal + s'.x1.col + Pair.sumF (·.b) s'.users) := by
+      s'.x1.burned = s'.x1.brn ∧ s'.x1.col + s'.x1.colB = C1 + s'.x1.sent ∧ s'.x1.tot + s'.x1.brn = K1 ∧
+      s'.x1.tot = s'.x1.bal + s'.x1.col + s'.x1.colB + Pair.sumF (·.b) s'.users) := by
   intro s'
   have h : Pair.LInv K0 C0 K1 C1 s' := Pair.reach_linv (cv := cv) s hL ops
   have a := h.l0; have b := h.l1; have c := h.cons
@@ -167,26 +168,34 @@ theorem pair_step_ledger {cv : Pair.Curve} {s s' : Pair.St} {op : Pair.Op} (h : 
         (∃ u dir off ms rcv, op = .swap u dir off ms rcv) ∨ (∃ u dir off sent, op = .swapBad u dir off sent)) ∧
       ((st0 ≠ 0 ∨ st1 ≠ 0) → op = .collect) := Pair.step_deltas h
 
-/-- **collecting transfers exactly the pending entries above the 1000 threshold to the configured
-    collector and to no one else** (entries at or below it stay on the ledger), and changes neither the
-    reported reserves, nor the counters, nor the LP supply, nor any user's balance -/
+/-- **collecting transfers exactly the pending entries above the 1000 threshold to the CONFIGURED
+    collector and to no one else** (entries at or below it stay on the ledger; the collector account
+    that is not configured at that moment receives nothing), and changes neither the reported reserves,
+    nor the counters, nor the LP supply, nor any user's balance -/
 theorem pair_collect_exact {s s' : Pair.St} (h : Pair.collect s = .ok s') :
-    (s'.x0.col = s.x0.col + (if 1000 < s.x0.pend then s.x0.pend else 0) ∧
+    (s'.x0.col = s.x0.col + (if 1000 < s.x0.pend ∧ s.useB = false then s.x0.pend else 0) ∧
+      s'.x0.colB = s.x0.colB + (if 1000 < s.x0.pend ∧ s.useB = true then s.x0.pend else 0) ∧
       s'.x0.pend = (if 1000 < s.x0.pend then 0 else s.x0.pend) ∧
       s.x0.bal - s'.x0.bal = (if 1000 < s.x0.pend then s.x0.pend else 0) ∧ s'.x0.res = s.x0.res ∧
       s'.x0.allTime = s.x0.allTime ∧ s'.x0.burned = s.x0.burned ∧ s'.x0.tot = s.x0.tot) ∧
-    (s'.x1.col = s.x1.col + (if 1000 < s.x1.pend then s.x1.pend else 0) ∧
+    (s'.x1.col = s.x1.col + (if 1000 < s.x1.pend ∧ s.useB = false then s.x1.pend else 0) ∧
+      s'.x1.colB = s.x1.colB + (if 1000 < s.x1.pend ∧ s.useB = true then s.x1.pend else 0) ∧
       s'.x1.pend = (if 1000 < s.x1.pend then 0 else s.x1.pend) ∧
       s.x1.bal - s'.x1.bal = (if 1000 < s.x1.pend then s.x1.pend else 0) ∧ s'.x1.res = s.x1.res ∧
       s'.x1.allTime = s.x1.allTime ∧ s'.x1.burned = s.x1.burned ∧ s'.x1.tot = s.x1.tot) ∧
-    s'.users = s.users ∧ s'.sup = s.sup ∧ s'.lpPair = s.lpPair ∧ s'.fees = s.fees := by
+    s'.users = s.users ∧ s'.sup = s.sup ∧ s'.lpPair = s.lpPair ∧ s'.fees = s.fees ∧ s'.useB = s.useB := by
   obtain ⟨y0, y1, h0, h1, e⟩ := Pair.collect_ok h
   subst e
-  obtain ⟨c0, p0, d0, _, r0, a0, b0, _, _, t0, _⟩ := Pair.collectSide_exact h0
-  obtain ⟨c1, p1, d1, _, r1, a1, b1, _, _, t1, _⟩ := Pair.collectSide_exact h1
+  obtain ⟨c0, cb0, p0, d0, _, r0, a0, b0, _, _, t0, _⟩ := Pair.collectSide_exact h0
+  obtain ⟨c1, cb1, p1, d1, _, r1, a1, b1, _, _, t1, _⟩ := Pair.collectSide_exact h1
   have hm : Gen.PAIR_MINIMUM_COLLECTABLE_BALANCE = 1000 := rfl
-  simp only [Pair.collectable, hm, decide_eq_true_eq] at c0 p0 d0 c1 p1 d1
-  exact ⟨⟨c0, p0, d0, r0, a0, b0, t0⟩, ⟨c1, p1, d1, r1, a1, b1, t1⟩, rfl, rfl, rfl, rfl⟩
+  simp only [Pair.collectable, hm, Bool.and_eq_true, decide_eq_true_eq, Bool.not_eq_true'] at c0 cb0 p0 d0 c1 cb1 p1 d1
+  exact ⟨⟨c0, cb0, p0, d0, r0, a0, b0, t0⟩, ⟨c1, cb1, p1, d1, r1, a1, b1, t1⟩, rfl, rfl, rfl, rfl, rfl⟩
+
+/-- `UpdateConfig{fee_collector_addr}`: only the owner; it moves nothing and only re-targets later
+    collections -/
+theorem pair_set_collector {s s' : Pair.St} {o b : Bool} (h : Pair.setCollector s o b = .ok s') :
+    o = true ∧ s' = { s with useB := b } := Pair.setCollector_ok h
 
 /-- non-vacuity: a constant-product history with a charged swap, a collection above the threshold and
     a second swap whose fee stays below it -/
